@@ -48,6 +48,9 @@ def impl(p):
     return r
 
 
+SAMPLE = {BYTE: 1, SHORT: 1, INT: 1, LONG: 1, BOOL: True, STRING: '1', FLOAT: 1.5, DOUBLE: 1.5}
+
+
 def wrap(z, w):
     return ((z + (1 << (w - 1))) % (1 << w)) - (1 << (w - 1))
 
@@ -58,10 +61,15 @@ DATE_RE = re.compile(r'^(\d{4})(?:-(\d{1,2})(?:-(\d{1,2}))?)?(?:[ T].*)?$', re.S
 def oracle(p, r):
     """The statement of C18 evaluated on the implementation's result."""
     f, t, v = p
-    # casting null yields null (for caster pairs that exist)
+    # casting null yields null (for caster pairs that exist: a pair whose caster raises
+    # AnalysisException for a representative non-null value of the source type is "no such cast")
     if v is None:
-        if isinstance(r, Err) and r.name == 'AnalysisException':
-            return None  # no such cast
+        if isinstance(r, Err) and r.name == 'AnalysisException' and f in SAMPLE:
+            rs = impl((f, t, SAMPLE[f]))
+            if isinstance(rs, Err) and rs.name == 'AnalysisException':
+                return None  # no such cast
+        if isinstance(r, Err) and r.name == 'AnalysisException' and f == NULL:
+            return None
         if r is not None:
             return (f'get_caster:null-not-null:{kind(p)}', f'cast of None gave {r!r}')
         return None
@@ -129,8 +137,6 @@ def generate(rng, tier):
     # None through every caster pair (incl. identity)
     for f in range(10):
         for t in range(10):
-            if t in (FLOAT, DOUBLE) and f != t:
-                continue
             cases.append((f, t, None))
     # integers into every width: boundaries +-3 of every width (exhaustive), short range (exhaustive in thorough)
     ints = set()
@@ -219,6 +225,17 @@ def generate(rng, tier):
             dstr.append(f'{y}-{m:02d}-{d:02d}' + rng.choice([' 10:11:12', 'T10:11', ' ', 'T', ' x']))
     for s in dstr:
         cases.append((STRING, DATE, s))
+    # numbers and booleans into float/double (float(value); exact below 2**53)
+    for z in [0, 1, -1, 7, -128, 2 ** 31, -2 ** 31, 2 ** 53, 2 ** 53 + 1, -(2 ** 53) - 1, 2 ** 61 + 12345, -(2 ** 62) + 1] + \
+            [rng.getrandbits(rng.choice([8, 30, 52, 54, 60])) * rng.choice([1, -1]) for _ in range(100 if quick else 2000)]:
+        for t in (FLOAT, DOUBLE):
+            cases.append((LONG, t, z))
+    for b in (True, False):
+        cases.append((BOOL, FLOAT, b))
+        cases.append((BOOL, DOUBLE, b))
+    for x in floats[:40]:
+        cases.append((DOUBLE, FLOAT, x))
+    cases.append((STRING, DOUBLE, ''))
     # identity
     for f, v in [(INT, 5), (STRING, 'abc'), (BOOL, True), (DOUBLE, 1.5), (DOUBLE, float('nan')), (LONG, -2 ** 63), (STRING, '')]:
         cases.append((f, f, v))
@@ -236,3 +253,56 @@ def shrink_candidates(p):
     if isinstance(v, int) and not isinstance(v, bool) and v not in (0, 1, -1):
         yield (f, t, v // 2)
         yield (f, t, -v)
+
+
+# ---------------------------------------------------------------------------------------------
+# oracle-only checks (not compared with the Coq model): float <-> string round trips (Python repr is
+# not modelled) and the null rule over every atomic caster pair incl. timestamp, decimal and binary
+def extra_checks(rng, tier, workdir):
+    import datetime as _dt
+    import decimal as _dec
+    n = 3000 if tier == 'quick' else 60000
+    xs = [0.0, -0.0, 1.0, -1.5, 0.1, 1e7, 1e-3, 9999999.999999998, 1.0000000000000002e-3, 1e22, 1e23, 5e-324,
+          2.2250738585072014e-308, 1.7976931348623157e308, 4.1775323060252785e+95, 123456789.12345679,
+          float('inf'), float('-inf')]
+    for _ in range(n):
+        kind = rng.random()
+        if kind < 0.3:
+            xs.append(rng.uniform(-1, 1) * 10.0 ** rng.randint(-320, 308))
+        elif kind < 0.6:
+            xs.append(float.fromhex('0x1.%013xp%d' % (rng.getrandbits(52), rng.randint(-1022, 1023))) * rng.choice([1, -1]))
+        else:
+            xs.append(rng.random() * 10 ** rng.randint(-5, 10))
+    to_s = casts.get_caster(T.DoubleType(), T.StringType(), {})
+    back = casts.get_caster(T.StringType(), T.DoubleType(), {})
+    for x in xs:
+        try:
+            s_ = to_s(x)
+            y = back(s_)
+        except Exception as e:  # pylint: disable=broad-except
+            yield ('cast_to_string:float-roundtrip', f'double {x!r} to string and back raised', type(e).__name__, (DOUBLE, STRING, x))
+            continue
+        if not isinstance(s_, str) or not isinstance(y, float) or y.hex() != x.hex():
+            yield ('cast_to_string:float-roundtrip', f'double {x!r} -> string {s_!r} -> back', f'observed {y!r}',
+                   (DOUBLE, STRING, x))
+            return
+    tys = [T.ByteType(), T.ShortType(), T.IntegerType(), T.LongType(), T.BooleanType(), T.StringType(), T.FloatType(),
+           T.DoubleType(), T.DateType(), T.TimestampType(), T.DecimalType(10, 2), T.BinaryType()]
+    samples = [1, 1, 1, 1, True, '1', 1.5, 1.5, _dt.date(2020, 1, 1), _dt.datetime(2020, 1, 1), _dec.Decimal('1.5'),
+               bytearray(b'a')]
+    for ft, sv in zip(tys, samples):
+        for tt in tys:
+            try:
+                c = casts.get_caster(ft, tt, {})
+            except Exception:  # pylint: disable=broad-except
+                continue
+
+            def run(v, c=c):
+                try:
+                    return ('ok', c(v))
+                except Exception as e:  # pylint: disable=broad-except
+                    return ('exc', type(e).__name__)
+            rn, rs = run(None), run(sv)
+            if rs[0] == 'ok' and rn != ('ok', None):
+                yield (f'get_caster:null-not-null:{type(ft).__name__}->{type(tt).__name__}',
+                       'cast of None', f'gave {rn!r} although the cast of {sv!r} gives {rs[1]!r}', None)
